@@ -224,6 +224,10 @@ class RiemannFamily:
         d = self.d
         if self.kind == "scalar":
             return 1.0 + 0.5 * np.sum(q**2)
+        if self.kind == "scalar_strong":
+            return 1.0 + 4.0 * np.sum(q**2)
+        if self.kind in ("diagonal_strong", "diagonal_strong9"):
+            return 1.0 + (4.0 if self.kind == "diagonal_strong" else 9.0) * q**2
         if self.kind == "diagonal":
             return 1.0 + q**2 + 0.5 * np.roll(q, -1) ** 2
         if self.kind == "cholesky":
@@ -244,6 +248,10 @@ class RiemannFamily:
         d = self.d
         if self.kind == "scalar":
             return q.copy()  # shape (k,)
+        if self.kind == "scalar_strong":
+            return 8.0 * q
+        if self.kind in ("diagonal_strong", "diagonal_strong9"):
+            return np.diag((8.0 if self.kind == "diagonal_strong" else 18.0) * q)
         if self.kind == "diagonal":
             J = np.zeros((d, d))
             for i in range(d):
@@ -274,9 +282,9 @@ class RiemannFamily:
     def dense_metric(self, q):
         P = self.param(q)
         d = self.d
-        if self.kind == "scalar":
+        if self.kind in ("scalar", "scalar_strong"):
             return P * np.eye(d)
-        if self.kind == "diagonal":
+        if self.kind in ("diagonal", "diagonal_strong", "diagonal_strong9"):
             return np.diag(P)
         if self.kind == "cholesky":
             return P @ P.T
@@ -295,9 +303,9 @@ class RiemannFamily:
     def vjp_fn(self, conv):
         def vjp_of(q):
             J = self.dparam(q)
-            if self.kind == "scalar":
+            if self.kind in ("scalar", "scalar_strong"):
                 return lambda v: v * J
-            if self.kind == "diagonal":
+            if self.kind in ("diagonal", "diagonal_strong", "diagonal_strong9"):
                 return lambda v: v @ J
             return lambda V: np.einsum("ij,ijk->k", V, J)
 
@@ -310,10 +318,10 @@ class RiemannFamily:
 
         t = self.target
         kw = dict(grad_neg_log_dens=t.grad_fn(grad_conv))
-        if self.kind == "scalar":
+        if self.kind in ("scalar", "scalar_strong"):
             return S.ScalarRiemannianMetricSystem(
                 t.f, self.metric_fn(), vjp_metric_scalar_func=self.vjp_fn(conv), **kw)
-        if self.kind == "diagonal":
+        if self.kind in ("diagonal", "diagonal_strong", "diagonal_strong9"):
             return S.DiagonalRiemannianMetricSystem(
                 t.f, self.metric_fn(), vjp_metric_diagonal_func=self.vjp_fn(conv), **kw)
         if self.kind == "cholesky":
@@ -338,7 +346,7 @@ RIEMANN_KINDS = ("scalar", "diagonal", "cholesky", "dense", "softabs")
 
 
 class Constraint:
-    """kind: affine (1 constr), sphere (1), ellplane (2, d=3 only), quadpair (2, d=3)"""
+    """kind: affine (1 constr), sphere (1), ellipsoid (1, non-spherical), ellplane (2, d=3)"""
 
     def __init__(self, kind, d, seed=0):
         self.kind, self.d = kind, d
@@ -357,6 +365,8 @@ class Constraint:
             return np.array([q @ q - self.r2])
         if self.kind == "ellplane":
             return np.array([self.w @ q**2 - self.r2, self.a @ q - self.b])
+        if self.kind == "ellipsoid":
+            return np.array([self.w @ q**2 - self.r2])
         raise ValueError(self.kind)
 
     def jac(self, q):
@@ -367,6 +377,8 @@ class Constraint:
             return 2 * q[None, :]
         if self.kind == "ellplane":
             return np.stack([2 * self.w * q, self.a])
+        if self.kind == "ellipsoid":
+            return (2 * self.w * q)[None, :]
         raise ValueError(self.kind)
 
     def hess(self, q):
@@ -374,7 +386,7 @@ class Constraint:
         H = np.zeros((self.n_constr, d, d))
         if self.kind == "sphere":
             H[0] = 2 * np.eye(d)
-        elif self.kind == "ellplane":
+        elif self.kind in ("ellplane", "ellipsoid"):
             H[0] = 2 * np.diag(self.w)
         return H
 
@@ -417,7 +429,7 @@ class Constraint:
 
 
 def constraints(d, seed=0):
-    kinds = ["affine", "sphere"] + (["ellplane"] if d == 3 else [])
+    kinds = ["affine", "sphere", "ellipsoid"] + (["ellplane"] if d == 3 else [])
     return [Constraint(k, d, seed) for k in kinds]
 
 
